@@ -59,7 +59,7 @@ func c11cliRunParts(c *vx.Ctx) {
 			{"cli/conn131070/prefilled", connB, seedConn, aConn, 5},
 			{"cli/conn131070/prefilled-two-streams", connB, seedConn2, aConn, 4},
 			{"cli/conn131070/prefilled-other-stream/cancel", connB, seedOther, aClosed, 4},
-			{"cli/conn131070/prefilled-other-stream/body-closed", connB, seedClosed, aClosed, 4},
+			{"cli/conn131070/prefilled-other-stream/body-closed", connB, seedClosed, aClosed, 5},
 			{"cli/win8/one-response/padded", small, seedStream, pSmall, 5},
 			{"cli/win600/one-response/padded", mid, seedStream, pMid, 4},
 			{"cli/conn131070/prefilled/padded", connB, seedConn, pConn, 4},
